@@ -47,6 +47,10 @@ func run(r *lib.Run) {
 	}
 	r.Extra("wall_s_by_part", map[string]float64{"inproc": t1.Sub(t0).Seconds(), "evict": t2.Sub(t1).Seconds(), "binary": time.Since(t2).Seconds()})
 
+	instMu.Lock()
+	r.Extra("instance_class_matrix", instMatrix)
+	instMu.Unlock()
+
 	// A run that did not exercise what it claims is not a pass.
 	need := []string{
 		"inproc.store.cas.http-identity.accepted", "inproc.store.cas.grpc-batch.accepted",
@@ -68,6 +72,11 @@ func run(r *lib.Run) {
 }
 
 // ---------------------------------------------------------------------------
+
+// minBlob: every generated blob is long enough to carry its unique stamp
+// (tag + 64 random bits), so that blobs of different sequences sharing one
+// server can never have the same digest.
+const minBlob = 64
 
 func parallel(n, workers int, f func(i int)) {
 	var wg sync.WaitGroup
@@ -103,7 +112,18 @@ func pickInsts(rng *rand.Rand, nClean int, grpcOnly bool) []instInfo {
 		}
 	}
 	if grpcOnly {
-		out = append(out, lib.Pick(rng, grpcOnlyInsts))
+		g := lib.Pick(rng, grpcOnlyInsts)
+		out = append(out, g)
+		// its clean near-miss, so that the two meet in one sequence
+		if c, ok := map[string]string{"/a": "a", "a/": "a", "a//b": "a/b", "a/../b": "b"}[g.name]; ok {
+			have := false
+			for _, i := range out {
+				have = have || i.name == c
+			}
+			if !have {
+				out = append(out, instByName(c))
+			}
+		}
 	}
 	return out
 }
@@ -113,7 +133,7 @@ func pickInsts(rng *rand.Rand, nClean int, grpcOnly bool) []instInfo {
 func newSequence(r *lib.Run, t *target, id string, rng *rand.Rand) *seqCtx {
 	s := &seqCtx{r: r, t: t, rng: rng, id: id, m: newModel(t.mangle)}
 	for i := 0; i < 2; i++ {
-		b := lib.GenBlob(rng, 1+rng.IntN(3000), lib.Pick(rng, lib.ContentKinds), fmt.Sprintf("%s-k%d", id, i))
+		b := lib.GenBlob(rng, minBlob+rng.IntN(3000), lib.Pick(rng, lib.ContentKinds), fmt.Sprintf("%s-k%d", id, i))
 		s.keys = append(s.keys, keyInfo{hash: lib.Sha256Hex(b), blob: b, class: "cas-digest"})
 	}
 	s.keys = append(s.keys, keyInfo{hash: lib.RandHash(rng), class: "random"})
@@ -123,7 +143,7 @@ func newSequence(r *lib.Run, t *target, id string, rng *rand.Rand) *seqCtx {
 
 func (s *seqCtx) storeDeps() bool {
 	for i := 0; i < 2; i++ {
-		b := lib.GenBlob(s.rng, 1+s.rng.IntN(500), "random", fmt.Sprintf("%s-dep%d", s.id, i))
+		b := lib.GenBlob(s.rng, minBlob+s.rng.IntN(500), "random", fmt.Sprintf("%s-dep%d", s.id, i))
 		d := lib.DigestOf(b)
 		if err := s.t.grpcBatchUpdate("", d.Hash, d.SizeBytes, b); err != nil {
 			s.r.Count(s.t.fixture + ".setup-failed")
@@ -150,7 +170,7 @@ func runSequence(r *lib.Run, t *target, id string, rng *rand.Rand) {
 		case p < 88:
 			s.randomStore(true)
 		case p < 96:
-			s.uncleanOp()
+			s.uncleanOp(false)
 		default:
 			s.randomLookup()
 			s.randomLookup()
@@ -158,6 +178,9 @@ func runSequence(r *lib.Run, t *target, id string, rng *rand.Rand) {
 	}
 	s.opn = 999
 	s.sweep(rng.IntN(5) == 0)
+	for i := 0; i < 4; i++ {
+		s.uncleanOp(true) // with values in place: an unclean spelling must not reach another slot
+	}
 	r.Count(t.fixture + ".sequences")
 	var insts []string
 	for _, i := range s.insts {
@@ -306,7 +329,7 @@ func evictCase(r *lib.Run, pool *lib.DirPool, id string, rng *rand.Rand) {
 	}()
 
 	s := &seqCtx{r: r, t: t, rng: rng, id: id, m: newModel(mangle)}
-	b := lib.GenBlob(rng, 40+rng.IntN(800), lib.Pick(rng, lib.ContentKinds), id+"-k")
+	b := lib.GenBlob(rng, minBlob+rng.IntN(800), lib.Pick(rng, lib.ContentKinds), id+"-k")
 	k := keyInfo{hash: lib.Sha256Hex(b), blob: b, class: "cas-digest"}
 	s.keys = []keyInfo{k}
 	s.insts = pickInsts(rng, 1+rng.IntN(2), false)
@@ -353,6 +376,7 @@ func evictCase(r *lib.Run, pool *lib.DirPool, id string, rng *rand.Rand) {
 		}
 		fillers = alive
 	}
+	// present: how many slots of k the reference map holds (and whether it is sure).
 	present := func() (n int, definite bool) {
 		definite = true
 		for _, e := range slots {
@@ -371,23 +395,21 @@ func evictCase(r *lib.Run, pool *lib.DirPool, id string, rng *rand.Rand) {
 			s.m.widen(e.ns, k.hash, e.inst.name, val{absent: true})
 		}
 	}
-	// reconcile: the index holds exactly the live fillers plus the slots the
-	// reference map has; otherwise an eviction hit a slot of k unnoticed and
-	// every slot may legitimately be gone.
-	reconcile := func(when string) bool {
+	// reconcile re-establishes a known recency order after a store: every
+	// filler is read, then every slot of k (judged). Slots of k are always more
+	// recently used than the fillers, so under the cache's LRU policy a store can
+	// only have pushed out a slot of k if no filler is left; as long as one
+	// filler survives the slots stay strict. Without such a witness the index
+	// size decides: it must be the live fillers plus what the reference map has.
+	reconcile := func(when string) {
 		probeFillers()
+		np, def := present()
+		if len(fillers) == 0 && (!def || t.numItems() != np) {
+			loosenAll(when)
+		}
 		for _, e := range slots {
 			touch(e)
 		}
-		np, def := present()
-		if !def || t.numItems() != np+len(fillers) {
-			loosenAll(when)
-			for _, e := range slots {
-				touch(e) // resolves what is there now
-			}
-			return false
-		}
-		return true
 	}
 
 	rounds := 3 + rng.IntN(3)
@@ -431,10 +453,12 @@ func evictCase(r *lib.Run, pool *lib.DirPool, id string, rng *rand.Rand) {
 				touch(slots[i])
 			}
 		}
-		np, def := present()
-		if !def || t.numItems() != np+len(fillers) {
-			loosenAll("before-pressure")
-			continue
+		old := map[string]bool{}
+		for _, f := range fillers {
+			old[f.hash] = true
+		}
+		if np, def := present(); !def || t.numItems() != np+len(fillers) {
+			r.Count("evict.index-size-unexplained")
 		}
 		// (d) pressure: new CAS blobs until the index stops growing, i.e. until
 		// exactly one entry has been evicted.
@@ -460,29 +484,36 @@ func evictCase(r *lib.Run, pool *lib.DirPool, id string, rng *rand.Rand) {
 		}
 		s.logf("pressure: victim %s/%q, %d fillers live, evicted=%d", victim.ns, clip(victim.inst.name, 30), len(fillers), evicted)
 		r.Count(fmt.Sprintf("evict.pressure.evicted=%d", evicted))
-		if evicted != 1 {
-			loosenAll("pressure-not-single")
-			for _, e := range slots {
-				touch(e)
-			}
-			continue
-		}
-		// (e) which entry went? The victim may be gone; if it is, and every
-		// filler is still there, no other slot of k can have been the one.
+		// (e) which entries went? Recency was: victim (oldest), the old fillers,
+		// the other slots of k, the new fillers. The other slots of k can only
+		// have been evicted by the pressure if every older entry went first: as
+		// long as one old filler is alive (or exactly one entry went and it was
+		// the victim) they must answer as before.
 		s.opn = round*100 + 50
+		probeFillers()
+		oldAlive := 0
+		for _, f := range fillers {
+			if old[f.hash] {
+				oldAlive++
+			}
+		}
 		s.m.widen(victim.ns, k.hash, victim.inst.name, val{absent: true})
 		touch(victim)
 		gone := len(slotOf(victim).alts) == 1 && slotOf(victim).alts[0].absent
 		r.Eval()
-		r.Distinct("evict", t.cfg, "victim", victim.ns, victim.inst.class, gone)
-		if !gone {
-			// LRU order is C05's business; here it only means this round cannot
-			// attribute the eviction.
-			r.Count("evict.victim-survived." + victim.ns)
-			loosenAll("victim-survived")
-		} else {
+		r.Distinct("evict", t.cfg, "victim", victim.ns, victim.inst.class, gone, oldAlive > 0, evicted)
+		if gone {
 			r.Count("evict.victim-evicted." + victim.ns)
-			r.Count("evict.victim-evicted-others-strict")
+		} else {
+			r.Count("evict.victim-survived." + victim.ns) // LRU order is C05's business
+		}
+		if oldAlive > 0 || (evicted == 1 && gone) {
+			if gone {
+				r.Count("evict.victim-evicted-others-strict")
+			}
+			r.Count("evict.others-strict")
+		} else {
+			loosenAll("no-witness")
 		}
 		// (f) every other slot must answer as before, on every front end and method.
 		for _, e := range slots {
@@ -536,9 +567,25 @@ func runBinary(r *lib.Run) {
 		if !c.validated {
 			args = append(args, "--disable_http_ac_validation")
 		}
-		child, err := lib.StartBinary(lib.BinaryOpts{Args: args})
-		if err != nil {
-			r.Inconclusive("cannot start the real binary: " + err.Error())
+		cfg := fmt.Sprintf("binary mangle=%v http=%s", c.mangle, map[bool]string{true: "validated(ac)", false: "unvalidated(raw)"}[c.validated])
+		// The machine is shared: a port picked as free may be taken by somebody
+		// else before the binary binds it. Retry with fresh ports.
+		var child *lib.Child
+		var t *target
+		var err error
+		for attempt := 0; attempt < 4; attempt++ {
+			child, err = lib.StartBinary(lib.BinaryOpts{Args: args})
+			if err == nil {
+				t, err = targetOfBinary(child, c.mangle, c.validated, cfg)
+				if err == nil && child.Exited() {
+					t.close()
+					err = fmt.Errorf("the real binary exited right after start: %s", child.LogTail(300))
+				}
+			}
+			if err == nil {
+				break
+			}
+			r.Count("binary.start-retry")
 			if child != nil {
 				if child.Cmd != nil && child.Cmd.Process != nil {
 					child.Stop()
@@ -547,13 +594,13 @@ func runBinary(r *lib.Run) {
 					_ = os.RemoveAll(child.Dir)
 				}
 			}
+			child, t = nil, nil
+		}
+		if err != nil {
+			r.Inconclusive("cannot start the real binary: " + err.Error())
 			continue
 		}
-		cfg := fmt.Sprintf("binary mangle=%v http=%s", c.mangle, map[bool]string{true: "validated(ac)", false: "unvalidated(raw)"}[c.validated])
-		t, err := targetOfBinary(child, c.mangle, c.validated, cfg)
-		if err != nil {
-			r.Inconclusive(err.Error())
-		} else {
+		{
 			parallel(per, 4, func(i int) {
 				runSequence(r, t, fmt.Sprintf("b%d.%d", ci, i), r.Rng(fmt.Sprintf("binary-%d-%d", ci, i)))
 			})
